@@ -444,6 +444,18 @@ def _completion_order(ctx, repo, cg):
         ctx.ob("C18-R6", w.fq, "the completion routine is called exactly once", len(seen) == 1, node=w.node, construct=f"one completion in {w.name}")
 
 
+# functions whose mechanical mutants are swept in the thorough tier (coverage evidence, see sa/mutate.py)
+MUTATION_SCOPE = ['db/file_cache:FileCache._load_file',
+                  'db/file_cache:FileCache._write_file',
+                  'db/file_cache:FileCache.update_file_access_time',
+                  'db/file_cache:FileCache.update_file_futures_and_memory',
+                  'db/file_cache:FileCache.update_file',
+                  'db/file_cache:FileCache._unload_file',
+                  'db/file_cache:FileCache.unload_file',
+                  'db/file_cache:FileCache.recover_memory',
+                  'db/file_cache:FileCache.get_file',
+                  'db/df_cache:PandasDataFrameCache.update']
+
 SEEDS = [
     Seed("read-outside-lock", "fault", FC, "        with self.file_futures_lock:\n            info = self.file_futures.get(file_name)\n            if info is None:\n                tinfo(f\"get_file: {file_name}\")",
          "        info = self.file_futures.get(file_name)\n        with self.file_futures_lock:\n            if info is None:\n                tinfo(f\"get_file: {file_name}\")", rule="C18-R1"),
